@@ -149,6 +149,40 @@ pub fn cmd_replay(args: &[String]) {
                 other => { bad += 1; report("substituted-program-rejected", format!("{:?}", other.map(|r| r.map(|_| ()).map_err(|e| e.prettify(&src2)))), &mut w); }
             }
         }
+        // const-sized parameters, also nested inside a fixed-size array and a tuple: the literal API must accept the values of
+        // the substituted types and the circuit must read them in the documented layout
+        if ok && sizes {
+            let vals: Vec<i64> = c["vals"].as_array().unwrap().iter().map(|v| v.as_i64().unwrap()).collect();
+            let nn = vals[vals.len() - 1] as usize;
+            let nname = names[names.len() - 1];
+            let src3 = format!("{decl_src}pub fn main(rows: [[u8; {nname}]; 2], t: ([u8; {nname}], bool), x: u8) -> ([u8; {nname}], u8, bool) {{\n    (rows[1], x, t.1)\n}}\n");
+            let mut consts: HashMap<String, HashMap<String, Literal>> = HashMap::new();
+            for (i, d) in deps.iter().enumerate() { consts.entry(d[0].as_str().unwrap().to_string()).or_default().insert(d[1].as_str().unwrap().to_string(), literal(t, asg[i].as_i64().unwrap())); }
+            match guarded(|| compile_with_constants(&src3, consts)) {
+                Ok(Ok(p3)) => {
+                    let row = |base: u64| Literal::Array((0..nn).map(|i| Literal::NumUnsigned(base + i as u64, UnsignedNumType::U8)).collect());
+                    let args = vec![Literal::Array(vec![row(10), row(20)]), Literal::Tuple(vec![row(30), Literal::True]), Literal::NumUnsigned(77, UnsignedNumType::U8)];
+                    let mut inputs = vec![];
+                    let mut refused = None;
+                    for (i, a) in args.iter().enumerate() {
+                        match guarded(|| p3.literal_arg(i, a.clone()).map(|x| x.as_bits())) { Ok(Ok(b)) => inputs.push(b), Ok(Err(e)) => { refused = Some(format!("literal_arg({i}, {a}) refused: {e:?}")); break; } Err(m) => { refused = Some(format!("literal_arg({i}, {a}) panicked: {m}")); break; } }
+                    }
+                    if let Some(m) = refused { bad += 1; report("const-sized-parameter-refused", m, &mut w); }
+                    else {
+                        let mut exp: Vec<bool> = vec![];
+                        for i in 0..nn { exp.extend(to_bits(20 + i as i64, 8)); }
+                        exp.extend(to_bits(77, 8)); exp.push(true);
+                        let circ = p3.circuit.clone();
+                        match guarded(move || circ.eval(&inputs)) {
+                            Ok(o) => { if o[0] || o[161..] != exp[..] { bad += 1; report("const-sized-parameter-value", format!("output {:?}", &o[161..]), &mut w); } }
+                            Err(m) => { bad += 1; report("const-sized-parameter-value", format!("eval panicked: {m}"), &mut w); }
+                        }
+                    }
+                }
+                Ok(Err(e)) => { if nn > 0 { bad += 1; report("const-sized-parameter-program-rejected", e.prettify(&src3).chars().take(300).collect(), &mut w); } }
+                Err(m) => { bad += 1; report("compiler-panic", format!("const-sized parameters: {m}"), &mut w); }
+            }
+        }
     }
     emit(&mut w, &json!({"summary": true, "n": n, "bad": bad, "ok_cases": nontrivial}));
 }
